@@ -50,9 +50,13 @@ fn series_strategy_with(max_n: u32, tiny_steps: bool) -> BS<Series> {
     let step = if tiny_steps { (1i128..=3).boxed() } else { step_strategy() };
     // a quarter of the series are re-anchored so that item j lands exactly on a century boundary of the count
     let start = (start, -2i128..=2, 0u32..40, prop::bool::weighted(0.25)).prop_map(|(s, k, j, land)| (s, k, j, land));
-    (start, step, 0u32..=max_n, 0u8..4, any::<u64>(), any::<bool>(), prop_oneof![3 => Just(99usize), 2 => (0usize..9)])
-        .prop_map(|((start, k, j, land), step, n, rk, rr, inclusive, es)| {
+    // the number of whole steps: mostly uniform, a share of very short series (0-3 steps: the off-by-one edges)
+    let n_any = prop_oneof![5 => 0u32..=max_n, 1 => 0u32..=3];
+    (start, step, n_any, 0u8..4, any::<u64>(), any::<bool>(), prop_oneof![3 => Just(99usize), 2 => (0usize..9)], prop::bool::weighted(0.08))
+        .prop_map(|((start, k, j, land), step, n, rk, rr, inclusive, es, mirror)| {
             let start = if land { Ep { s: start.s, c: k * NPC - j as i128 * step } } else { start };
+            // a series that straddles its own scale's reference epoch symmetrically: start = -m steps, end = +m steps
+            let (start, n) = if mirror && step < 40 * NS_D { let m = (n % 40) as i128 + 1; (Ep { s: start.s, c: -m * step }, (2 * m) as u32) } else { (start, n) };
             // large steps: keep the series short so that it stays in range
             let n = if step > 400 * NS_D { n % 8 } else { n };
             let r = match rk {
